@@ -155,6 +155,12 @@ func (s *segmentMetadata) getIndex(vecIdx VectorIndex, txtIdx TextIndex, metaIdx
 		if _, err := readerFrom.ReadFrom(combinedReader); err != nil {
 			return nil, fmt.Errorf("failed to deserialize segment: %w", err)
 		}
+		// The decoders stop after their last field, so the end of the last
+		// component file has not been looked at yet. Read it to the end: a
+		// truncated file (gzip trailer missing or short) must fail the load.
+		if _, err := io.Copy(io.Discard, combinedReader); err != nil {
+			return nil, fmt.Errorf("segment file truncated or corrupt: %w", err)
+		}
 	} else {
 		return nil, fmt.Errorf("index does not implement io.ReaderFrom")
 	}
